@@ -49,6 +49,9 @@ CHECKS = {
  "C15": dict(engine="decorator", design="5/C15", technique="TLA+ Decorator spec (per-call enter/body/exit machines), TLC exhaustive over interleavings of 2..3 concurrent calls and sequential repeats with cancellation, edge-cover replay with hand-driven tasks",
    text="spec/Decorator.tla models each decorated call as Start/EnterDone/BodyEnd/ExitDone with a suspension in enter, body and exit and cancellation at each; TLC checks OwnGenerator/Paired/Result for generator-based and class-based managers, suppressing or not; every transition is replayed into a real decorated coroutine function: per call the enter/exit counts, the generator instance serving it, the exception its exit saw and its result.",
    note="Trusted: TLC, harness (instrumented managers)."),
+ "C19": dict(engine="toolmachine", design="5/C19", technique="TLA+ ToolMachine spec (adapter machines with an Await effect), TLC exhaustive over shapes, prefixes and faults; replay with exact log equality",
+   text="any_iter, await_each, apply and sync are ToolMachine tools whose steps request Await/Pull/Call/Yield effects; TLC enumerates all item lists, {plain, awaitable outer} x {plain, awaitable items}, every consumer prefix, every positional/keyword split for apply and a failure at every await/pull/call; each case is replayed with list / iterator / async-iterator sources and def / async def / partial / callable-object functions and the recorded interleaving of awaits, pulls, calls and yields must equal the spec's (await_each awaits item j only after the consumer asked for it; apply awaits positionals then keywords in order), failures surface as the injected object; sync(f) is f for coroutine functions.",
+   note="Trusted: TLC, harness. asynctools has no standard-library twin: the specification is the reference."),
 }
 
 def main():
